@@ -132,6 +132,17 @@ Definition port_infos (cmd : str) : list (str * pinfo) :=
     (name, {| ptype := kind; pjoin := j |}) :: filter (fun kv => negb (str_eqb (fst kv) name)) acc)
     (find_all cmd 0) [].
 
+(* NewProc refuses a pattern in which a port name is met again after it has already been seen with two different types *)
+Definition pattern_ok (cmd : str) : bool :=
+  snd (fold_left (fun (st : list (str * list str) * bool) m =>
+    let '(_, kind, rest) := m in
+    let name := hd [] (split_on pipe rest) in
+    let seen := match find (fun kv => str_eqb (fst kv) name) (fst st) with Some kv => snd kv | None => [] end in
+    let bad := Nat.ltb 1 (length seen) in
+    let seen' := if existsb (str_eqb kind) seen then seen else kind :: seen in
+    ((name, seen') :: filter (fun kv => negb (str_eqb (fst kv) name)) (fst st), snd st && negb bad))
+    (find_all cmd 0) ([], true)).
+
 Definition lookup {V} (k : str) (l : list (str * V)) : option V :=
   match find (fun kv => str_eqb (fst kv) k) l with Some kv => Some (snd kv) | None => None end.
 
@@ -143,6 +154,9 @@ Definition temp_path (p : str) : str :=
   match q with c :: _ => if Ascii.eqb c sl then s2l "__fsroot__" ++ q else q | [] => q end.
 
 Inductive res := Ok (s : str) | Fail.
+
+(* prependParentDirPath indexes the first byte: on an empty string the real code panics, which stops the workflow *)
+Definition prepend_parent_res (p : str) : res := match p with [] => Fail | _ => Ok (prepend_parent p) end.
 
 (* environment: in-paths, sub-stream member paths, out-paths, params, tags *)
 Record env := { e_in : list (str * str); e_sub : list (str * list str); e_out : list (str * str);
@@ -166,19 +180,20 @@ Definition replacement (infos : list (str * pinfo)) (e : env) (kind rest : str) 
     else if str_eqb ty (s2l "os") then
       match lookup name (e_out e) with
       | Some p => let q := apply_mods (p ++ s2l ".fifo") mods in
-                  Ok (if existsb (str_eqb (s2l "basename")) mods then q else prepend_parent q)
+                  if existsb (str_eqb (s2l "basename")) mods then Ok q else prepend_parent_res q
       | None => Fail end
     else if str_eqb ty (s2l "i") then
       match pjoin pi with
       | Some sep =>
         match lookup name (e_sub e) with
-        | Some ms => Ok (join_with sep (map (fun m => prepend_parent (apply_mods m mods)) ms))
+        | Some ms => if existsb (fun m => match apply_mods m mods with [] => true | _ => false end) ms then Fail
+                     else Ok (join_with sep (map (fun m => prepend_parent (apply_mods m mods)) ms))
         | None => Fail end
       | None =>
         match lookup name (e_in e) with
         | Some p => match p with [] => Fail | _ =>
                       let q := apply_mods p mods in
-                      Ok (if existsb (str_eqb (s2l "basename")) mods then q else prepend_parent q) end
+                      if existsb (str_eqb (s2l "basename")) mods then Ok q else prepend_parent_res q end
         | None => Fail end
       end
     else if str_eqb ty (s2l "p") then
